@@ -89,6 +89,102 @@ def qc_shape_bad(qc, n):
     return qc.num_qubits != n or qc.num_clbits != 0
 
 
+# ---- request sequences: the family returned for a configuration must not depend on which configurations were
+# ---- requested before it (explicit exploration of load / re-request orders on a cold library)
+
+ENTRY = ("get_mubs", "get_mub_circuits", "get_mub_info")
+
+
+def expected(n, conn):
+    """What the three entry points must return, taken from the file through the strict reader (bases, gate lists)
+    and recomputed from the gate lists (info numbers)."""
+    head, entries = tables.read_mub_table(os.path.join(tables.DATA_DIR, "mub%d-%s.txt" % (n, conn)), n)
+    costs = [M.two_qubit_cost(g) for _, g in entries]
+    depths = [M.two_qubit_depth(g, n) for _, g in entries]
+    return [list(b) for b, _ in entries], [g for _, g in entries], (max(costs), sum(costs) / len(costs), max(depths))
+
+
+def observe(lib, n, conn, which):
+    from .. import impl
+    r = getattr(lib.mub_circuits, ENTRY[which])(n, conn)
+    if which == 0:
+        return [list(b) for b in r]
+    if which == 1:
+        return [impl.circuit_ops(qc, keep_measure=True) for qc in r]
+    return dict(r)
+
+
+def info_matches(info, exp):
+    vals = sorted(float(v) for v in info.values() if isinstance(v, (int, float)))
+    return all(any(abs(v - e) < 1e-9 for v in vals) for e in exp)
+
+
+def run_sequence(seq):
+    """Execute [(n, conn, which), ...] on a cold library; return (index, message) of the first call whose answer is
+    not the family of the requested configuration, or None."""
+    from .. import histmc
+    lib = histmc.fresh_library()
+    for k, (n, conn, which) in enumerate(seq):
+        exp = expected(n, conn)
+        try:
+            got = observe(lib, n, conn, which)
+        except Exception as ex:      # noqa: BLE001
+            return k, "%s(%d, %r) raised %s: %s" % (ENTRY[which], n, conn, type(ex).__name__, str(ex)[:100])
+        ok = info_matches(got, exp[2]) if which == 2 else got == exp[which]
+        if not ok:
+            return k, "%s(%d, %r) does not return the family of that configuration (call %d of the sequence; %d earlier calls on %d other configurations)" % (
+                ENTRY[which], n, conn, k + 1, k, len({(a, b) for a, b, _ in seq[:k]} - {(n, conn)}))
+    return None
+
+
+def window_sequence(i, L):
+    """Load L configurations starting at i (cyclically, entry points rotating), re-request them in load order
+    with the next entry point, then in reverse order with the third."""
+    cs = [M.CONFIGS[(i + j) % len(M.CONFIGS)] for j in range(L)]
+    seq = [(n, c, (i + j) % 3) for j, (n, c) in enumerate(cs)]
+    seq += [(n, c, (i + j + 1) % 3) for j, (n, c) in enumerate(cs)]
+    seq += [(n, c, (i + j + 2) % 3) for j, (n, c) in reversed(list(enumerate(cs)))]
+    return seq
+
+
+def _seq_work(payload):
+    out = []
+    for seq in payload:
+        r = run_sequence(seq)
+        out.append((len(seq), r))
+    return out
+
+
+def check_sequences(ctx):
+    quick = ctx.tier == "quick"
+    nc = len(M.CONFIGS)
+    seqs = [window_sequence(i, L) for i in range(nc) for L in range(1, nc + 1)]
+    # every ordered pair a, b, a (b loaded between two requests of a), every entry point
+    pairs = [[(na, ca, w), (nb, cb, (w + 1) % 3), (na, ca, (w + 2) % 3), (nb, cb, w)]
+             for x, (na, ca) in enumerate(M.CONFIGS) for y, (nb, cb) in enumerate(M.CONFIGS) if x != y for w in ((x + y) % 3,)]
+    ctx.phase("request sequences on a cold library: %d windows (every start x every length 1..%d) and %d ordered pairs" % (len(seqs), nc, len(pairs)))
+    chunks = [[s] for s in seqs] + [pairs[k::16] for k in range(16)]
+    found = 0
+    for res, chunk in zip(core.pmap(_seq_work, chunks), chunks):
+        for seq, (ln, r) in zip(chunk, res):
+            ctx.count("request_sequences")
+            ctx.count("sequence_calls", ln)
+            if r is not None and found < 6:
+                found += 1
+                k, msg = r
+                ctx.violation({"kind": "mubseq", "sequence": [list(e) for e in seq[:k + 1]]}, "mubseq: " + msg)
+            elif r is not None:
+                found += 1
+    if found > 6:
+        ctx.notes["further_sequence_failures_not_listed"] = found - 6
+    ctx.bounds["request_sequences"] = "all %d cyclic windows of the configuration list (start x length), each loaded, re-requested in order and in reverse; all %d ordered pairs a,b,a,b" % (len(seqs), len(pairs))
+
+
+def replay_seq(body):
+    r = run_sequence([tuple(e) for e in body["sequence"]])
+    return None if r is None else r[1]
+
+
 def check(ctx):
     ctx.count("model_identities_checked", selftest.gate_rules_vs_matrices())
     ctx.phase("all 20 configurations")
@@ -100,6 +196,7 @@ def check(ctx):
         for k, msg in res:
             ctx.violation({"kind": "mub", "n": n, "conn": conn, "basis": k}, "mub: n=%d %s: %s" % (n, conn, msg))
         ctx.count("configurations")
+    check_sequences(ctx)
     from .. import impl
     ctx.sample({"n": 3, "conn": "linear", "basis_0": impl.mub_circuits.get_mubs(3, "linear")[0],
                 "circuit_0": impl.circuit_ops(impl.mub_circuits.get_mub_circuits(3, "linear")[0])})
@@ -118,4 +215,4 @@ def replay(body):
     return None
 
 
-REPLAY = {"mub": replay}
+REPLAY = {"mub": replay, "mubseq": replay_seq}
